@@ -1,8 +1,19 @@
 (* C14 — Strength of connection follows its definition and is partition independent.
    Property-level theorems only; each is closed by lemmas of Amg/StrengthProofs.v.
-   Model: Amg/Strength.v (strength.cpp, par_strength.cpp).  The ordered field is abstract; only
-   transitivity, asymmetry and totality of < are used (proved for the executed instance Qc below). *)
-From Raptor Require Import Base.Sums Sparse.Defs Amg.Strength Amg.StrengthProofs.
+   Model: Amg/Strength.v = raptor/strength.cpp (classical_strength, symmetric_strength, CSRMatrix::strength) and
+   raptor/par_strength.cpp (the ParCSRMatrix twins), the latter as a function of the global matrix and the
+   partition.  The ordered field is abstract; only transitivity, asymmetry and totality of < are used
+   (C14_order_instance_Qc: they hold for the executed instance).  `big`/`nbig` are the sentinels +-RAND_MAX.
+
+   The documented tests are stated once, in StrengthProofs.v:
+     strong_classical theta keep i Ai j v   and   strong_symmetric theta rows i j v.
+   Hypotheses: rows_nodup (no column stored twice in a row), rows_diag (every non-empty row stores its
+   diagonal - the property's quantifier), list_sum part = length rows (the blocks cover the rows;
+   empty blocks allowed). *)
+From Coq Require Import QArith Qcanon ZArith.
+From Raptor Require Import Base.Sums Sparse.Defs Amg.Strength Amg.StrengthProofs Amg.StrengthInst
+     Extract.Inst Extract.Inst_interp.
+Local Open Scope nat_scope.
 
 Section C14.
 Variable F : Type.
@@ -15,10 +26,14 @@ Hypothesis ltb_asym : forall a b, ltb a b = true -> ltb b a = false.
 Hypothesis ltb_total : forall a b, ltb a b = false -> ltb b a = false -> a = b.
 
 Notation classicalS := (classical_strength F zero mul ltb big nbig).
+Notation symmetricS := (symmetric_strength F zero mul ltb big nbig).
+Notation seqS := (strength_seq F zero mul ltb big nbig).
+Notation parS := (strength_par F zero mul ltb big nbig).
 Notation strongC := (strong_classical F zero mul ltb big nbig).
+Notation strongS := (strong_symmetric F zero mul ltb big nbig).
 
-(* classical measure, sequential routine: every stored entry of S is an entry of A with its value (and no
-   column is repeated); the stored diagonal of a row is kept; an off-diagonal is in S exactly when it
+(* classical measure, sequential routine: every stored entry of S is an entry of A with its value and no
+   column is repeated; the stored diagonal of a row is kept; an off-diagonal is in S exactly when it
    passes the documented test `strong_classical` *)
 Theorem C14_classical_seq (theta : F) (nv : nat) (vars : list nat) (rows : list (list (nat * F))) :
   rows_nodup F rows ->
@@ -41,6 +56,149 @@ Proof.
   tauto.
 Qed.
 
+(* symmetric measure, sequential routine: same clauses with the test `strong_symmetric` *)
+Theorem C14_symmetric_seq (theta : F) (rows : list (list (nat * F))) :
+  rows_nodup F rows ->
+  length (symmetricS theta rows) = length rows /\
+  forall i,
+    let Ai := nth i rows [] in
+    let Si := nth i (symmetricS theta rows) [] in
+    (forall p, In p Si -> In p Ai) /\ NoDup (map fst Si) /\
+    (forall d, In (i, d) Ai -> In (i, d) Si) /\
+    (forall j v, j <> i -> (In (j, v) Si <-> strongS theta rows i j v)).
+Proof.
+  intros Hn. split; [apply symmetric_strength_length|].
+  intros i Ai Si.
+  assert (Hni : NoDup (map fst Ai)) by (apply rows_nodup_nth; exact Hn).
+  split; [|split; [|split]].
+  - intros p. unfold Si. rewrite symmetric_strength_nth, symmetric_row_kernel. apply (row_kernel_subset F zero mul).
+  - unfold Si. rewrite symmetric_strength_nth, symmetric_row_kernel.
+    apply (row_kernel_nodup F zero mul); [apply sym_test_perm_inv|exact Hni].
+  - intros d. unfold Si. rewrite symmetric_strength_nth, symmetric_row_kernel.
+    apply row_kernel_diag; [apply sym_test_perm_inv|exact Hni].
+  - intros j v Hj. apply symmetric_strength_test; assumption.
+Qed.
+
+(* partition independence: for every partition into contiguous blocks (empty blocks allowed) the gathered
+   result of ParCSRMatrix::strength has, row by row, the same entries as CSRMatrix::strength *)
+Theorem C14_partition_independent (symmetric : bool) (theta : F) (nv : nat) (vars part : list nat)
+        (rows : list (list (nat * F))) :
+  rows_nodup F rows -> rows_diag F rows -> list_sum part = length rows ->
+  Forall2 (@Permutation (nat * F)) (parS symmetric theta nv vars part rows) (seqS symmetric theta nv vars rows).
+Proof.
+  intros Hn Hd Hs. unfold strength_par, strength_seq. destruct symmetric.
+  - apply par_symmetric_strength_eq; assumption.
+  - apply par_classical_strength_eq; assumption.
+Qed.
+
+(* hence the distributed routine itself follows the definition, on every partition *)
+Theorem C14_distributed_follows_definition (symmetric : bool) (theta : F) (nv : nat) (vars part : list nat)
+        (rows : list (list (nat * F))) :
+  rows_nodup F rows -> rows_diag F rows -> list_sum part = length rows ->
+  length (parS symmetric theta nv vars part rows) = length rows /\
+  forall i,
+    let Ai := nth i rows [] in
+    let Pi := nth i (parS symmetric theta nv vars part rows) [] in
+    (forall p, In p Pi -> In p Ai) /\ NoDup (map fst Pi) /\
+    (forall d, In (i, d) Ai -> In (i, d) Pi) /\
+    (forall j v, j <> i ->
+       (In (j, v) Pi <-> if symmetric then strongS theta rows i j v
+                         else strongC theta (same_var nv (nth i vars 0) vars) i Ai j v)).
+Proof.
+  intros Hn Hd Hs.
+  assert (HP := C14_partition_independent symmetric theta nv vars part rows Hn Hd Hs).
+  split.
+  { transitivity (length (seqS symmetric theta nv vars rows)); [apply (Forall2_length' _ _ _ HP)|]. unfold strength_seq. destruct symmetric;
+      [apply symmetric_strength_length|apply classical_strength_length]. }
+  intros i Ai Pi. assert (Hp := Forall2_nth_perm _ _ HP i). fold Pi in Hp.
+  assert (Hp' := Permutation_sym Hp).
+  unfold strength_seq in Hp, Hp'. destruct symmetric.
+  - destruct (C14_symmetric_seq theta rows Hn) as [_ H]. destruct (H i) as [H1 [H2 [H3 H4]]]. fold Ai in H1, H2, H3, H4.
+    split; [intros p Hin; apply H1; eapply Permutation_in; eassumption|].
+    split; [eapply Permutation_NoDup; [apply Permutation_map; exact Hp'|exact H2]|].
+    split; [intros d Hin; eapply Permutation_in; [exact Hp'|apply H3; exact Hin]|].
+    intros j v Hj. rewrite <- (H4 j v Hj). split; intros Hin; eapply Permutation_in; eassumption.
+  - destruct (C14_classical_seq theta nv vars rows Hn) as [_ H]. destruct (H i) as [H1 [H2 [H3 H4]]]. fold Ai in H1, H2, H3, H4.
+    split; [intros p Hin; apply H1; eapply Permutation_in; eassumption|].
+    split; [eapply Permutation_NoDup; [apply Permutation_map; exact Hp'|exact H2]|].
+    split; [intros d Hin; eapply Permutation_in; [exact Hp'|apply H3; exact Hin]|].
+    intros j v Hj. rewrite <- (H4 j v Hj). split; intros Hin; eapply Permutation_in; eassumption.
+Qed.
+
+(* the sentinels +-RAND_MAX are unobservable in the classical measure as long as every stored value lies
+   strictly between them: any other pair of dominating sentinels gives the same matrix *)
+Theorem C14_sentinel_unobservable (big' nbig' theta : F) (nv : nat) (vars : list nat) (rows : list (list (nat * F))) :
+  (forall r p, In r rows -> In p r -> inside F ltb big nbig (snd p) /\ inside F ltb big' nbig' (snd p)) ->
+  classical_strength F zero mul ltb big nbig theta nv vars rows =
+  classical_strength F zero mul ltb big' nbig' theta nv vars rows.
+Proof.
+  intros H. unfold classical_strength. apply map_ext_in. intros [i r] Hin. cbn [fst snd].
+  apply classical_row_sentinel_indep. intros p Hp. apply (H r p); [|exact Hp].
+  eapply indexed_in_rows. exact Hin.
+Qed.
+
 End C14.
 
+(* the executed instance (Qc, Qc_ltb) satisfies the order hypotheses *)
+Theorem C14_order_instance_Qc :
+  (forall a b c, Qc_ltb a b = true -> Qc_ltb b c = true -> Qc_ltb a c = true) /\
+  (forall a b, Qc_ltb a b = true -> Qc_ltb b a = false) /\
+  (forall a b, Qc_ltb a b = false -> Qc_ltb b a = false -> a = b).
+Proof. split; [exact Qc_ltb_trans|split; [exact Qc_ltb_asym|exact Qc_ltb_total]]. Qed.
+
+(* ---- non-vacuity: the hypotheses are satisfiable and the conclusions say something on a concrete matrix
+        (integers, theta = 1/2 realised as  m*2/4) ---- *)
+Definition ex_rows : list (list (nat * Z)) :=
+  [ [(1, (-1)%Z); (0, 4%Z); (2, (-4)%Z)];   (* diag 4 > 0: min = -4, threshold -2: (2,-4) strong, (1,-1) weak *)
+    [(2, 1%Z); (1, (-3)%Z); (0, 2%Z)];      (* diag -3 < 0: max = 2, threshold 1: (0,2) strong, (2,1) weak (strict) *)
+    [(2, 5%Z)] ].                           (* diagonal only *)
+Definition ex_mul (m t : Z) : Z := (m * t / 4)%Z.
+
+Lemma C14_hypotheses_nonvacuous :
+  rows_nodup Z ex_rows /\ rows_diag Z ex_rows /\ list_sum [1; 0; 2] = length ex_rows /\
+  (forall r p, In r ex_rows -> In p r ->
+     inside Z Z.ltb 2147483647%Z (-2147483647)%Z (snd p) /\ inside Z Z.ltb 1000%Z (-1000)%Z (snd p)).
+Proof.
+  split; [|split; [|split]].
+  - intros r Hr. simpl in Hr. destruct Hr as [<-|[<-|[<-|[]]]]; simpl;
+      repeat (constructor; [simpl; intuition discriminate|]); constructor.
+  - intros i. destruct i as [|[|[|i]]]; simpl.
+    + right. exists 4%Z. right. left. reflexivity.
+    + right. exists (-3)%Z. right. left. reflexivity.
+    + right. exists 5%Z. left. reflexivity.
+    + left. destruct i; reflexivity.
+  - reflexivity.
+  - intros r p Hr Hp. simpl in Hr.
+    destruct Hr as [<-|[<-|[<-|[]]]]; simpl in Hp;
+      repeat (destruct Hp as [<-|Hp]; [unfold inside; simpl; repeat split; reflexivity|]); contradiction.
+Qed.
+
+Example C14_partition_independent_nonvacuous :
+  strength_par Z 0%Z ex_mul Z.ltb 2147483647%Z (-2147483647)%Z false 2%Z 1 [] [1; 0; 2] ex_rows
+    = [ [(0, 4%Z); (2, (-4)%Z)]; [(1, (-3)%Z); (0, 2%Z)]; [(2, 5%Z)] ] /\
+  strength_seq Z 0%Z ex_mul Z.ltb 2147483647%Z (-2147483647)%Z false 2%Z 1 [] ex_rows
+    = [ [(0, 4%Z); (2, (-4)%Z)]; [(1, (-3)%Z); (0, 2%Z)]; [(2, 5%Z)] ] /\
+  (* symmetric: row 1 keeps (2,1) because it passes the test of row 2 (diagonal-only row: sentinel threshold);
+     the gathered distributed row lists on-process entries first - equal as sets, not as lists *)
+  strength_par Z 0%Z ex_mul Z.ltb 2147483647%Z (-2147483647)%Z true 2%Z 1 [] [1; 0; 2] ex_rows
+    = [ [(0, 4%Z); (2, (-4)%Z)]; [(1, (-3)%Z); (2, 1%Z); (0, 2%Z)]; [(2, 5%Z)] ] /\
+  strength_seq Z 0%Z ex_mul Z.ltb 2147483647%Z (-2147483647)%Z true 2%Z 1 [] ex_rows
+    = [ [(0, 4%Z); (2, (-4)%Z)]; [(1, (-3)%Z); (0, 2%Z); (2, 1%Z)]; [(2, 5%Z)] ].
+Proof. vm_compute. repeat split. Qed.
+
+Example C14_strong_classical_nonvacuous :
+  strong_classical Z 0%Z ex_mul Z.ltb 2147483647%Z (-2147483647)%Z 2%Z (fun _ => true) 0 (nth 0 ex_rows []) 2 (-4)%Z.
+Proof.
+  destruct C14_hypotheses_nonvacuous as [Hn _].
+  apply (classical_row_test Z 0%Z ex_mul Z.ltb 2147483647%Z (-2147483647)%Z Z_ltb_trans Z_ltb_asym Z_ltb_total
+           2%Z 1 [] 0 (nth 0 ex_rows []) 2 (-4)%Z).
+  - apply Hn. left. reflexivity.
+  - split; [vm_compute; right; left; reflexivity|discriminate].
+Qed.
+
 Print Assumptions C14_classical_seq.
+Print Assumptions C14_symmetric_seq.
+Print Assumptions C14_partition_independent.
+Print Assumptions C14_distributed_follows_definition.
+Print Assumptions C14_sentinel_unobservable.
+Print Assumptions C14_order_instance_Qc.
